@@ -53,9 +53,12 @@ def make(case):
         rng.shuffle(data[1:])
         kw = {"binsize": 1.0}
     else:
-        n = int(rng.choice([1, 2, 3, 5, 12, 40, 150]))
+        n = int(rng.choice([1, 2, 3, 5, 12, 40, 150, 300, 450]))
         data = rng.integers(-10, 11, size=n).astype("f8") if rng.random() < .5 else rng.normal(size=n)
-        kw = {"nperbin": int(rng.integers(1, n + 2)), "mergelast": bool(rng.integers(0, 2))}
+        # the equal-occupancy layout bins the sorted rank with bin size nperbin: every nperbin up to 130 is reached over the
+        # cases (a few have a reciprocal that is not exact), with several bins each
+        npb = int(rng.integers(1, n + 2)) if n < 150 or rng.random() < .3 else int(rng.integers(1, min(131, n // 2)))
+        kw = {"nperbin": npb, "mergelast": bool(rng.integers(0, 2))}
         if rng.random() < .3:
             s = np.sort(data)
             a, b = sorted(rng.integers(0, n, size=2))
